@@ -249,7 +249,12 @@ func (c *Classifier) Normalize(in []byte) []byte {
 	}
 
 	prevLine := 1
-	buf.WriteString(c.dict.getWord(doc.Tokens[0].ID))
+	// An EOL token in first position is written by the line-advance check of
+	// the token that follows it; writing it here as well would shift every
+	// later line down by one.
+	if first := c.dict.getWord(doc.Tokens[0].ID); first != eol {
+		buf.WriteString(first)
+	}
 	for _, t := range doc.Tokens[1:] {
 		// Only write out an EOL token that incremented the line
 		if t.Line == prevLine+1 {
